@@ -430,4 +430,125 @@ theorem putLoop_spec : ∀ (fuel : Nat) (s : Snk) (d : List Octet) (total : Nat)
           subst he'
           exact ⟨hE (by simpa using hr), by simpa using hr⟩
 
+/-! ### plumbing -/
+
+/-- source and sink after `d` (the next octets of the stream, in order) reached the sink and
+    `lost` further octets were taken from the source but not delivered -/
+def Moved (src : Src) (snk : Snk) (src' : Src) (snk' : Snk) (d lost : List Octet) : Prop :=
+  Adv src src' (d ++ lost) ∧ SnkAdv snk snk' d
+
+theorem Moved.refl (src : Src) (snk : Snk) : Moved src snk src snk [] [] :=
+  ⟨by simpa using Adv.refl src, SnkAdv.refl snk⟩
+
+theorem Moved.trans {src src1 src' : Src} {snk snk1 snk' : Snk} {d0 d1 lost : List Octet}
+    (h0 : Moved src snk src1 snk1 d0 []) (h1 : Moved src1 snk1 src' snk' d1 lost) :
+    Moved src snk src' snk' (d0 ++ d1) lost := by
+  refine ⟨?_, SnkAdv.trans h0.2 h1.2⟩
+  have := Adv.trans (by simpa using h0.1) h1.1
+  simpa [List.append_assoc] using this
+
+/-- drivers that never answer 0 (needed by the per-octet plumbing, see DESIGN.md) -/
+def NoZero (script : List Step) : Prop := ∀ st ∈ script, st ≠ .zero ∧ st ≠ .xfer 0
+
+theorem NoZero.suffix {a b : List Step} (h : a <:+ b) (hb : NoZero b) : NoZero a :=
+  fun st hs => hb st (h.subset hs)
+
+theorem src_call1_nozero (s : Src) (hz : NoZero s.script) :
+    ∀ k, (s.call 1).1 = .ok k → ∃ o, (s.call 1).2.1 = [o] ∧ k = 1 := by
+  intro k hk
+  simp only [Src.call] at hk ⊢
+  have deliver1 : ∀ m, m = 1 →
+      (if s.stream.isEmpty then ((R.err Err.enodata, ([] : List Octet), ({ s with script := s.script.tail, calls := s.calls + 1 } : Src)))
+       else (R.ok (min m s.stream.length), s.stream.take m,
+          { s with script := s.script.tail, calls := s.calls + 1, stream := s.stream.drop m })).1 = .ok k →
+      ∃ o, (if s.stream.isEmpty then ((R.err Err.enodata, ([] : List Octet), ({ s with script := s.script.tail, calls := s.calls + 1 } : Src)))
+       else (R.ok (min m s.stream.length), s.stream.take m,
+          { s with script := s.script.tail, calls := s.calls + 1, stream := s.stream.drop m })).2.1 = [o] ∧ k = 1 := by
+    intro m hm h
+    subst hm
+    cases hst : s.stream with
+    | nil => simp [hst] at h
+    | cons o os => simp [hst] at h ⊢; omega
+  cases hh : s.script.head? with
+  | none => rw [hh] at hk; exact deliver1 1 rfl (by simpa using hk) |> fun ⟨o, h1, h2⟩ => ⟨o, by simpa [hh] using h1, h2⟩
+  | some st =>
+    rw [hh] at hk
+    have hmem : st ∈ s.script := List.mem_of_mem_head? hh
+    obtain ⟨hz1, hz2⟩ := hz st hmem
+    cases st with
+    | xfer k' =>
+      have hk' : min k' 1 = 1 := by
+        have : k' ≠ 0 := fun h => hz2 (by rw [h])
+        omega
+      obtain ⟨o, h1, h2⟩ := deliver1 (min k' 1) hk' (by simpa using hk)
+      exact ⟨o, by simpa [hh] using h1, h2⟩
+    | zero => exact absurd rfl hz1
+    | eintr => simp at hk
+    | eagain => simp at hk
+    | hard e => simp at hk
+
+theorem snk_call1_nozero (s : Snk) (o : Octet) (hz : NoZero s.script) :
+    ∀ k, (s.call [o]).1 = .ok k → k = 1 ∧ (s.call [o]).2.got = s.got ++ [o] := by
+  intro k hk
+  simp only [Snk.call] at hk ⊢
+  cases hh : s.script.head? with
+  | none => rw [hh] at hk; simp at hk ⊢; omega
+  | some st =>
+    rw [hh] at hk
+    have hmem : st ∈ s.script := List.mem_of_mem_head? hh
+    obtain ⟨hz1, hz2⟩ := hz st hmem
+    cases st with
+    | xfer k' =>
+      have : k' ≠ 0 := fun h => hz2 (by rw [h])
+      simp only [List.length_singleton, R.ok.injEq] at hk ⊢
+      refine ⟨by omega, ?_⟩
+      cases k' with
+      | zero => exact absurd rfl this
+      | succ n => simp
+    | zero => exact absurd rfl hz1
+    | eintr => simp at hk
+    | eagain => simp at hk
+    | hard e => simp at hk
+
+/-- one octet from source to sink (drivers never answering 0): success moves exactly one octet;
+    on failure at most one octet taken from the source is lost -/
+theorem sts_cbc_spec (src : Src) (snk : Snk) (hs : NoZero src.script) (hk : NoZero snk.script) :
+    let r := sts_cbc src snk
+    (∀ m, r.1 = .ok m → m = 1 ∧ ∃ o, Moved src snk r.2.1 r.2.2 [o] []) ∧
+    (∀ e, r.1 = .err e → ∃ lost, lost.length ≤ 1 ∧ Moved src snk r.2.1 r.2.2 [] lost) ∧
+    r.1 ≠ .diverge := by
+  have hadv := Adv.of_call src 1
+  obtain ⟨_, _, _, _, _, herr, hnd⟩ := call_spec src 1
+  have hone := src_call1_nozero src hs
+  simp only [sts_cbc, source_get_octet, sink_put_octet]
+  rcases hc : src.call 1 with ⟨rc, d0, src1⟩
+  rw [hc] at hadv herr hnd hone
+  simp only at hadv herr hnd hone ⊢
+  cases rc with
+  | diverge => exact absurd rfl hnd
+  | err e =>
+    have := (herr e rfl).1
+    subst this
+    exact ⟨by simp, fun e' _ => ⟨[], by simp, ⟨by simpa using hadv, SnkAdv.refl snk⟩⟩, by simp⟩
+  | ok k =>
+    obtain ⟨o, hd, hk1⟩ := hone k rfl
+    subst hd
+    simp only
+    obtain ⟨k2, hk2, hsadv, hok2, herr2, hnd2⟩ := snk_once_call snk [o]
+    have hone2 := snk_call1_nozero snk o hk
+    rcases hc2 : snk.call [o] with ⟨rc2, snk1⟩
+    rw [hc2] at hsadv hok2 herr2 hnd2 hone2
+    simp only at hsadv hok2 herr2 hnd2 hone2 ⊢
+    cases rc2 with
+    | diverge => exact absurd rfl hnd2
+    | ok m =>
+      obtain ⟨hm1, hg⟩ := hone2 m rfl
+      refine ⟨fun m' hm' => ⟨by simp only [R.ok.injEq] at hm'; omega, o, ?_⟩, by simp, by simp⟩
+      exact ⟨by simpa using hadv, ⟨hg, hsadv.2.1, hsadv.2.2⟩⟩
+    | err e =>
+      have hk0 := (herr2 e rfl).1
+      subst hk0
+      refine ⟨by simp, fun e' _ => ⟨[o], by simp, ?_⟩, by simp⟩
+      exact ⟨by simpa using hadv, by simpa using hsadv⟩
+
 end Ufw.Lemmas.Endpoints
